@@ -108,9 +108,11 @@ CLAIMS = {
         technique='deductive verification of the selector functions (PyVC + z3) + syntactic call obligations; bounded path enumeration'),
     'C09': dict(category='exploration', design_ref='DESIGN.md section 3 C09',
         text='Bounded stand-in: totality, reflexivity, symmetry, transitivity and SOUNDNESS against an independent evaluator of the patterning semantics on a generated pattern family and 1.6k+ observation sequences; '
-             'documented rewrite laws recognised; find == filter. Leaf comparators (generic_cmp, iter_in) are proved and their order lemmas discharged.',
+             'documented rewrite laws recognised; find == filter. Proved: generic_cmp, iter_in and the comparison-level comparators (comparison_operator_cmp, bool_cmp, generic_constant_cmp, '
+             'object_path_component_cmp, simple_comparison_expression_cmp against the contracts of its callees) return 0 exactly for equal operands and their sign is reflexive, antisymmetric and transitive -- '
+             'lemmas over two / three instances of each function\'s own path summary, decided again from the current source on every run.',
         note='Soundness beyond the bounded universe is not claimed; ANTLR parser assumed; special-value canonicalisations not exercised. Known finding: a comparison AND whose operands share no object type is refused by the pattern object model (ValueError).',
-        technique='bounded enumeration with an independent semantics evaluator; leaf comparator contracts (PyVC + z3)'),
+        technique='bounded enumeration with an independent semantics evaluator; comparator contracts and relational lemmas over path summaries (PyVC + z3)'),
     'C10': dict(category='exploration', design_ref='DESIGN.md section 3 C10',
         text='Bounded stand-in only: generated pattern trees printed with an independent precedence-aware printer; text -> object model -> text -> independent reader gives the same tree; print o parse fixed point; the same trees built through the public model classes read back identically; both grammars.',
         note='No clause proved (ANTLR visitor and %-formatting over opaque objects are outside the verified subset). Known finding: [a:x = 1 AND b:x = 1] is valid text that create_pattern_object refuses.',
@@ -120,10 +122,17 @@ CLAIMS = {
              'Proved core: __setattr__ refuses every public name; __deepcopy__ builds from copy.deepcopy(self._inner) and stores only into that private copy. parse_into_datetime is proved here with a frame obligation: no attribute store or in-place mutation through any alias of a record argument.',
         note='General absence of aliasing writes needs an ownership discipline Python lacks: bounded only.',
         technique='bounded frame checking with deep snapshots; contract proofs of __setattr__/__deepcopy__ (PyVC + z3)'),
-    'C16': dict(category='exploration', design_ref='DESIGN.md section 3 C16',
-        text='Bounded stand-in only: canonicalize(v) compared with an independent RFC 8785 spec function (validated each run against the RFC Appendix B samples) on a grid of numbers (powers of two and neighbours, d*10^e, boundaries), strings/keys over boundary characters (UTF-16 vs code-point order), nesting; parse-back, idempotence, order independence, NaN/inf refusal.',
-        note='No clause proved (closure-based encoder, float formatting).',
-        technique='bounded differential testing against an independent specification function'),
+    'C16': dict(category='other', design_ref='DESIGN.md section 3 C16, section 18',
+        text='Proved: convert2Es6Format (the real text, symbolically executed once per shape of the double -- sign x number of significant digits x decimal exponent, every digit symbolic; '
+             'loops unrolled by the while rule, which only fires when the path condition decides the loop condition) returns ECMAScript Number::toString of the value and refuses NaN / infinities / '
+             'integers beyond the double range: quick tier all shapes in the band where notation and padding are decided plus every exponent-width boundary (2080 shapes), thorough tier all 21.5k shapes. '
+             'Exhaustive over all 1,112,064 Unicode scalar values: the string encoder bound at import and the pure-Python fallback write every character as RFC 8785 3.2.2.2 says, and the ESCAPE class / table agree with it. '
+             'Call-site obligations tie both to every number / string branch of the encoder closures and to the member sort, whose key (UTF-16 big-endian bytes) orders like UTF-16 code units (three z3 lemmas: unit case and induction step). '
+             'Bounded, carrying what the closures do (nesting, separators, circular-reference bookkeeping, insertion-order independence, parse-back, fixed point): canonicalize(v) against an independent RFC 8785 spec function '
+             '(validated each run against the RFC Appendix B samples) on a value grid.',
+        note='Assumed and probed each run: float.__repr__ writes the shortest round-trip digits in the CPython layout (py_repr_items); float(int) is correctly rounded. Assumed: _json.encode_basestring / re.sub act character by character. '
+             'A call site of the encoder that is no longer recognised (helper extracted, branch reshaped) is undecided, never a violation. The recursive encoder closures are not proved: level "other".',
+        technique='contract-based deductive verification: per-shape VCs from the real source of convert2Es6Format (PyVC, symbolic digits) discharged by z3, exhaustive per-character obligations, call-site obligations and z3 order lemmas; bounded differential stand-in against an independent specification function for the encoder closures'),
     'C19': dict(category='other', design_ref='DESIGN.md section 3 C19',
         text='Proved: each _register_* is exact and exclusive (duplicate => DuplicateRegistrationError with no registry store; success => exactly one store into the chosen version/category map, name was free); '
              'type-name grammar == specification per version; the extensions scan of _STIXBase.__init__ counts every registered toplevel-property-extension entry whatever its position (region contract); validators read no mutable module state. Bounded: registration histories in fresh subprocesses, version scoping of parse, round trip of registered types, reference-property naming rule. Cross-version / cross-class scenarios in fresh subprocesses (one undecorated class under both versions; marking definitions naming one registered marking but holding another).',
